@@ -24,7 +24,7 @@ func TestC10NeverWedges(t *testing.T) {
 
 		// --- the read routine's state when the failure strikes ---
 		state := rapid.SampledFrom([]string{"parked-in-read", "holding-qos1", "holding-qos2", "holding-big", "own-ack-write-parked",
-			"pubrel-write-parked", "dialing", "handshake", "resending"}).Draw(rt, "readerState")
+			"pubrel-write-parked", "dialing", "handshake", "resending", "foreign-writer-parked", "foreign-writer-parked"}).Draw(rt, "readerState")
 		h.Act("reader state %s", state)
 		var pending []*sim.Call
 		switch state {
@@ -64,6 +64,11 @@ func TestC10NeverWedges(t *testing.T) {
 				h.armWrite(rapid.IntRange(0, 3).Draw(rt, "off"), sim.WPark)
 				h.App.Step() // flushes the acknowledgement: parks inside Write
 				h.SettleReader("acknowledgement write parked")
+			case "foreign-writer-parked":
+				// another goroutine sits inside Write (the peer stopped
+				// draining) and holds the write lock
+				h.armWrite(rapid.IntRange(0, 5).Draw(rt, "off"), sim.WPark)
+				pending = append(pending, h.pub(0, false))
 			case "pubrel-write-parked":
 				c := h.pub(2, false)
 				_ = c
@@ -147,6 +152,23 @@ func TestC10NeverWedges(t *testing.T) {
 			nontrivial = true
 		}
 		h.PollQuiet(quiet, func() bool { return false })
+		if state == "foreign-writer-parked" && gate == "" && (failure == "read-reset" || failure == "read-eof" || failure == "mid-packet-stall") {
+			// The read routine notices the failure on its own. It must give
+			// the connection up although a writer is stuck in Write: closing
+			// it is what interrupts that writer. Nothing else releases it here.
+			nontrivial = true
+			for i := 0; i < 3 && h.WritersParkedAny(); i++ {
+				h.App.Step()
+				h.MustPoll("ReadSlices returning, waiting for input, or the parked writer being interrupted", func() bool {
+					return !h.WritersParkedAny() || h.ReaderWaiting() || !h.App.InCall()
+				})
+				h.ExpireStalledRead()
+				h.PollQuiet(quiet, func() bool { return !h.WritersParkedAny() })
+			}
+			if h.WritersParkedAny() {
+				h.MustPoll("the writer which is stuck inside Write being interrupted by the read routine closing the failed connection", func() bool { return !h.WritersParkedAny() })
+			}
+		}
 
 		// --- failed connects before one succeeds ---
 		fails := rapid.IntRange(0, 4).Draw(rt, "failedConnects")
